@@ -64,7 +64,23 @@ Configuration mode "multi-step generation" of the legs "seq" and "conc" (cfg {"d
     for a bot intent that a conversation served later comes to without one (or with its own, or through a configured flow).
     Enumerated family "inline bot messages" (A, then B; A1 B1 A2).
 
-Shape "separator shift" of leg "seq" (a sixth of the generated sequential cases + enumerated family "separator shift")
+Configuration dimension "max_length" of legs "seq" and "conc" (cfg key "maxlen": {task: characters}, ext "c15-ml" or, together with
+    multi-step generation, "c15-ms"): the shipped template of the task is configured again with a lowered `max_length`, so that
+    the renderer's overflow handling - events are dropped from the START of the history until the prompt fits - is reached after
+    a few turns.  Conversation spec key "pad": n makes every user text of the conversation long (n items appended).  A fifth
+    of the ordinary sequential cases, about a sixth of the concurrent ones, the sequential shape "overflow in between" (a
+    seventh of the sequential cases: B short, A long, B.. | all of A | B.. or A.. B.. or drawn) and the enumerated family of the
+    same name.  B's prompts and replies must equal those of B served alone, where the renderer drops nothing or only what B's
+    own length makes it drop.  Oracle unchanged.
+
+Option shape "rail name lists" (spec key "rails": {"in" | "out" | "ret": [indices of configured rails]} -> options.rails.input /
+    output / retrieval = lists of rail NAMES, the documented form of GenerationRailsOptions) on configurations with several
+    rails per category (RL_CFGS): an eighth of the ordinary sequential cases; a quarter of the concurrent cases, where the request
+    with the lists has a slow first LLM call and a request without any rails option starts while it is in flight; enumerated
+    family "rail name lists in flight".  Oracle unchanged: every request - in particular the one without options - must run as
+    when served alone, i.e. with its full configured rails.
+
+Shape "separator shift" of leg "seq" (a seventh of the generated sequential cases + enumerated family "separator shift")
     Two conversations X, Y with the same role pattern whose transcripts have, turn by turn, the same ':'-joined text and
     differ only in WHERE a ':' is a message boundary between a user text and the bot's reply (`a:b` -> `c` vs `a` -> `b:c`;
     one or two such turns, either direction, in the first or a later turn), followed by 0-2 turns that are the same in both
@@ -141,7 +157,18 @@ HANG_IS_VIOLATION = False
 WALL = {"quick": 130, "thorough": 1400}
 MAX_STEPS = 400_000
 RULE = (
-    "three legs: seq and conc 4/9 of the generated cases each, v2 1/9, plus six enumerated families. seq: Colang 1.0 config (dialog rails on ~75%, 0-1 input rail of check/rewrite/shipped "
+    "three legs: seq and conc 4/9 of the generated cases each, v2 1/9, plus eight enumerated families. "
+    "Configuration dimension MAX_LENGTH of the Colang 1.0 legs (a fifth of the ordinary seq cases, the seq shape 'overflow in between' = a seventh of the seq cases, about a sixth of the conc cases): the shipped "
+    "template of general / generate_user_intent / generate_next_steps / generate_bot_message (1-3 of the dialog tasks) is configured again with a lowered max_length (general 420/480/600, user intent 2800/3000, "
+    "next steps 1200/1260, bot message 3150/3350 characters - a few turns above the size of the prompt without history), so the renderer drops events from the start of the history; conversations of LONG messages "
+    "(every user text padded with 5-12 items, up to 5 turns) overflow after 2-4 turns, conversations of short texts fit or overflow late by themselves. Shape 'overflow in between': B 2-4 short turns, A 2-5 long turns, "
+    "optional third conversation, schedule B.. | all of A | B.. (1/2), all of A then all of B (1/4), drawn (1/4); enumerated family 'overflow in between' (B1 B2 | A1..A4 | B3 and A.. B.. over general mode / dialog "
+    "rails x limit x call mode - quick 3 cases, thorough 33). "
+    "Option shape RAIL NAME LISTS (an eighth of the ordinary seq cases, a quarter of the conc cases; configurations with 2-3 input rails, 0-2 output rails, 0-2 retrieval rails of kinds check/rewrite/self): a request passes "
+    "options.rails.input/output/retrieval as a LIST of configured rail names (any sub-list incl. the empty and the full one, 3/4 leaving out a configured rail); conc: that request A starts at 0 with a slow first LLM call "
+    "(0.3-1.0 virtual s), request B without rails option (no options at all, or log / llm_params only) starts 0.01-0.2 s later, further tasks as drawn; enumerated family 'rail name lists in flight' (B's text is one that a rail "
+    "left out by A's lists rewrites or refuses, a third request on the idle instance afterwards - quick 3 cases in general mode, thorough 18 incl. dialog rails, self-check, retrieval rails, B with log). "
+    "seq: Colang 1.0 config (dialog rails on ~75%, 0-1 input rail of check/rewrite/shipped "
     "self-check, 0-1 output rail; LLM parameters in real fields or in model_kwargs; configuration mode MULTI-STEP GENERATION in a third of the seq / non-quiet conc cases with dialog rails: "
     "enable_multi_step_generation, half of the intents the LLM picks are handled by no flow, the generate_next_steps answer is then a flow BODY the runtime parses, adds and starts - a pure "
     "function of the prompt under a drawn policy: pool of 1/2/3/6 bodies of 1-3 bot steps, selected by the last user intent (same kind of request -> same body) or by the whole prompt, "
@@ -156,7 +183,7 @@ RULE = (
     "optional supplied history: user/assistant/context messages, or (2/3 of the later conversations) the transcript of an earlier "
     "conversation re-spelled - adjacent messages merged with ':', roles swapped, context turned into its JSON text, cut; optional "
     "per-conversation generation options (none at all, or llm_params temperature/max_tokens and/or log), in a third of the sequential cases one conversation is the twin of its predecessor (same messages, different options incl. rails switches), streaming requests; call "
-    "a sixth of the generated seq cases have the shape SEPARATOR SHIFT PAIR: two conversations with the same role pattern built from distinct ':'-free tokens whose transcripts have "
+    "a seventh of the generated seq cases have the shape SEPARATOR SHIFT PAIR: two conversations with the same role pattern built from distinct ':'-free tokens whose transcripts have "
     "turn by turn the same ':'-joined text and differ only in where a ':' is the boundary between a user text and the bot's reply ('a:b'->'c' vs 'a'->'b:c'; 1-2 turns, the boundary "
     "moved in one or two of them, either direction), then 0-2 turns that are the same in both (1/4 of their texts contain ':'), then 1-2 / 0-1 turns of their own; half in general mode, "
     "half on any configuration; schedule 'X common turns, Y all turns, X goes on' (1/2), its mirror image (1/4) or drawn; optional third ordinary conversation; the bot texts come "
@@ -186,6 +213,8 @@ RULE = (
     "an entry written by another conversation (identical prefix or colliding key), or overwrites another conversation's entry (harness "
     "model of the cache), or has a proper prefix with the same ':'-joined text and roles as a DIFFERENT message list another conversation was served before (key-function independent); conc = LLM calls of two different tasks overlap without nesting in the loop's order of call starts/ends "
     "(which refines virtual time); seq and conc in multi-step generation mode also: the instance started the same LLM-written flow body for two different conversations, or one conversation's body carried an inline text for a bot intent that another conversation came to later (with no / another text of its own); "
+    "seq and conc with a lowered max_length also: a request was served after / between two turns of its conversation / while in flight ANOTHER conversation's prompt overflowed on the shared instance (observed by a counting probe around the renderer); "
+    "conc with rail name lists also: a request without rails option was in flight together with a request whose lists leave out a configured rail; "
     "v2 = LLM-generated flows were added for at least two conversations on the shared instance. Distinct by case hash; only cases on which the property held are counted."
 )
 ASSUMPTIONS = [
@@ -198,6 +227,8 @@ ASSUMPTIONS = [
     "leg v2: a conversation ends (its caller sends nothing more) after a turn in which the LLM wrote a flow that waits for the next user utterance - that flow and the library's reaction to the utterance race even when the conversation is served alone, so later turns could not be compared",
     "leg v2: while finding C15-F23 (fresh states share the runtime's flow table) is neither listed in known_findings.json nor enabled with VF_C15_V2_SHARED=1, undefined flow names are derived from each conversation's own text",
     "the schedule of `with llm_params` blocks is observed by a probe around LLMParams.__enter__/__exit__ (tick + requested parameters, then the repository's code runs unchanged); the defect model of C15-F9b/F9c uses that schedule and nothing else of the implementation",
+    "lowered max_length: the `prompts:` entry repeats the SHIPPED template of the task (content, stop, output parser as get_prompt selects them for the configured main model) and changes only max_length; what the renderer drops on overflow (events from the start of the history, documented in render_task_prompt) is not modelled - only compared between the shared run and the isolated replays; whether a prompt was cut is observed by counting the renderings per render_task_prompt call (labels / non-triviality only)",
+    "rail name lists: GenerationRailsOptions accepts `Union[bool, List[str]]` per category ('If a list of names is specified, then only the specified ... rails will be applied'); what a list does to the request that passes it is NOT judged beyond the differential (the user guide says selecting individual rails is not yet supported; the unchanged tree treats a non-empty list as True and an empty one as False) - the request with the lists must behave as when served alone, and every other request must run its full configured rails as when served alone",
     "the conversations served 'in between' are single-turn, without options, with texts no other conversation uses; only the first and the last are replayed in isolation",
     "the caller keeps each conversation the way a stateless server does: the full message history (supplied history, user messages, returned replies) is passed every turn",
     "a conversation whose supplied history is exactly (roles and contents) the transcript of another conversation served by the instance is the same conversation for the instance and is not judged",
@@ -245,15 +276,53 @@ def _asked_text(prompt):
 EXT_MS = "c15-ms"
 
 
+EXT_ML = "c15-ml"  # configuration dimension "max_length" alone (together with multi-step generation: ext EXT_MS + key "maxlen")
+
+
 def _ms_build_config(cfg, colang, yaml_text):
     import yaml
 
     y = yaml.safe_load(yaml_text)
-    y["enable_multi_step_generation"] = True
+    if cfg.get("ext") == EXT_MS:
+        y["enable_multi_step_generation"] = True
+    if cfg.get("maxlen"):
+        y["prompts"] = list(y.get("prompts") or []) + _maxlen_prompts(colang, yaml_text, cfg["maxlen"])
     return colang, yaml.safe_dump(y, sort_keys=False)
 
 
+def _maxlen_prompts(colang, yaml_text, maxlen):
+    """Configuration dimension "max_length": `prompts:` entries that keep the SHIPPED template of a task (content / messages, stop,
+    output parser - whatever `get_prompt` selects for the configured main model) and only lower its `max_length` (shipped
+    default: 16000 characters), so that the renderer's documented reaction to an overflow - events are dropped from the
+    start of the history until the prompt fits - is reached by conversations of a few turns."""
+    from nemoguardrails import RailsConfig
+    from nemoguardrails.llm.prompts import get_prompt
+
+    config = RailsConfig.from_content(colang, yaml_text)
+    main = [m for m in config.models if m.type == "main"][0]
+    out = []
+    for task in sorted(maxlen):
+        p = get_prompt(config, task)
+        d = json.loads(p.json(exclude_none=True)) if hasattr(p, "json") else dict(p)
+        d.update(task=task, models=[main.engine + ("/" + main.model if main.model else "")], max_length=int(maxlen[task]))
+        out.append(d)
+    return out
+
+
 pipeline.register_extension(EXT_MS, build_config=_ms_build_config)
+pipeline.register_extension(EXT_ML, build_config=_ms_build_config)
+
+# the tasks whose prompt a Colang 1.0 turn renders from the history of events, with drawn limits: the shipped templates come
+# to about 300 (general), 2600 (generate_user_intent), 1150 (generate_next_steps) and 2900 (generate_bot_message)
+# characters before the first turn and grow by 40-100 characters per turn of short texts - so a conversation of short texts
+# fits for a few turns (or overflows by itself late), one with padded texts (`_pad`) overflows after two to four turns
+ML_LIMITS = {"general": [420, 480, 600], "generate_user_intent": [2800, 3000], "generate_next_steps": [1200, 1260], "generate_bot_message": [3150, 3350]}
+
+
+def _pad(i, n):
+    """Padding of the user texts of conversation i (spec key "pad": n items of about nine characters, no ':'): a conversation
+    of LONG messages - its prompts reach a lowered max_length after a few turns."""
+    return "".join(f" item{i}x{k}" for k in range(int(n or 0)))
 
 # half of the intents the LLM picks in this mode are handled by no flow of the configuration (-> generate_next_steps)
 MS_UNHANDLED = ["ask time", "ask help", "request booking"]
@@ -503,6 +572,44 @@ def _install_param_probe():
 
 _install_param_probe()
 
+# Observation only (labels / non-triviality of the configuration dimension "max_length", never the oracle): how many times the
+# task manager rendered the template while it built ONE prompt - more than once means the history was cut to make it fit.
+_CUTS = {}  # id(task manager) -> [{"k": tick, "conv", "turn", "task", "dropped": number of re-renderings}]
+
+
+def _install_render_probe():
+    try:
+        from nemoguardrails.llm.taskmanager import LLMTaskManager as T
+    except Exception:
+        return
+    if T.__dict__.get("_vf_probe") or not all(hasattr(T, n) for n in ("render_task_prompt", "_render_string", "_render_messages")):
+        return
+    o_task, o_str, o_msgs = T.render_task_prompt, T._render_string, T._render_messages
+
+    def _render_string(self, *a, **kw):
+        self.__dict__["_vf_n"] = self.__dict__.get("_vf_n", 0) + 1
+        return o_str(self, *a, **kw)
+
+    def _render_messages(self, *a, **kw):
+        self.__dict__["_vf_n"] = self.__dict__.get("_vf_n", 0) + 1
+        return o_msgs(self, *a, **kw)
+
+    def render_task_prompt(self, task, *a, **kw):
+        self.__dict__["_vf_n"] = 0  # (rendering is synchronous: no other request can run in between)
+        try:
+            return o_task(self, task, *a, **kw)
+        finally:
+            log = _CUTS.get(id(self))
+            if log is not None and self.__dict__.get("_vf_n", 0) > 1:
+                cur = fakes.CURRENT.get()
+                log.append({"k": _tick(), "conv": getattr(cur[0], "cid", None) if cur else None, "turn": cur[1] if cur else None,
+                            "task": str(getattr(task, "value", task)), "dropped": self.__dict__["_vf_n"] - 1})
+
+    T.render_task_prompt, T._render_string, T._render_messages, T._vf_probe = render_task_prompt, _render_string, _render_messages, True
+
+
+_install_render_probe()
+
 
 class DefectModel:
     """What the LLMParams of the UNCHANGED tree does to the LLM object under a given schedule of blocks - the exact content
@@ -737,6 +844,8 @@ class Pipe(pipeline.Pipeline):
         self.configured = self.llm.snapshot()
         self.llm_spec = llm_spec
         self.ptrace = _TRACES[id(self.llm)] = []  # schedule of the `with llm_params` blocks on this LLM object
+        tm = getattr(getattr(self.rails, "runtime", None), "llm_task_manager", None)
+        self.cuts = _CUTS[id(tm)] = []  # prompts of this instance whose history had to be cut (configuration dimension "max_length")
 
     def model(self):
         return DefectModel(self.llm_spec, self.configured, self.ptrace)
@@ -1109,6 +1218,70 @@ def _ms_facts(cfg, convs, labels):
 
 
 # ------------------------------------------------------------------------------------------------
+# configuration dimension "max_length" / option shape "rail name lists": what the shared run exercised (labels and
+# non-triviality; NOT part of the oracle)
+
+
+def _maxlen_facts(cfg, shared, convs, iso_cuts, specs, labels):
+    """Labels of the configuration dimension "max_length".  True when a request was served after (between two requests of one
+    conversation / while a request was in flight) ANOTHER conversation's prompt overflowed on the shared instance, i.e. had
+    events dropped from the start of its history."""
+    if any(sp.get("pad") for sp in specs):
+        labels.append("conversation-of-long-messages")
+    if not cfg.get("maxlen"):
+        return False
+    labels.append("max_length-lowered-for=" + "+".join(sorted(cfg["maxlen"])))
+    cuts = [c for c in shared.cuts if c["conv"] is not None]
+    if not cuts:
+        labels.append("no-prompt-overflowed")
+        return False
+    labels.append("prompt-overflowed(history-cut-from-the-start)")
+    if any(c["dropped"] >= 8 for c in cuts):
+        labels.append("overflow-dropped-8+-events")
+    nt = False
+    for conv in convs:
+        reqs = [o for o in conv.obs if o.get("req_k0") is not None]
+        alone = bool(iso_cuts.get(conv.cid))
+        for a, b in zip(reqs, reqs[1:]):
+            mid = [c for c in cuts if c["conv"] != conv.cid and a["req_k1"] < c["k"] < b["req_k0"]]
+            if mid:
+                nt = True
+                labels.append("another-conversation-overflowed-between-two-turns-of-a-conversation-that-" + ("overflows-by-itself-too" if alone else "fits-when-served-alone"))
+        if any(c["conv"] != conv.cid and reqs and c["k"] < reqs[-1]["req_k0"] for c in cuts):
+            labels.append("request-served-after-another-conversation-overflowed")
+            nt = True
+        if any(c["conv"] != conv.cid and any(o["req_k0"] < c["k"] < o["req_k1"] for o in reqs) for c in cuts):
+            labels.append("another-conversation-overflowed-while-a-request-was-in-flight")
+            nt = True
+    return nt
+
+
+def _rails_list_facts(cfg, convs, specs, labels):
+    """Labels of the option shape "rail name lists".  True when a request WITHOUT a rails option was in flight together with a
+    request whose name lists leave out a configured rail (tick intervals of the requests overlap)."""
+    with_lists = [i for i, sp in enumerate(specs) if sp.get("rails")]
+    if not with_lists:
+        return False
+    labels.append("rails-option-with-name-lists")
+    for i in with_lists:
+        for cat, word in RAIL_CATS:
+            if (specs[i].get("rails") or {}).get(cat) is not None:
+                labels.append(f"name-list-for-{word}-rails" + ("(empty)" if not specs[i]["rails"][cat] else ""))
+    leaving = [i for i in with_lists if _rails_left_out(specs[i], cfg)]
+    if leaving:
+        labels.append("name-list-leaves-out-a-configured-rail")
+    nt = False
+    for i in leaving:
+        for j, sp in enumerate(specs):
+            if j == i or sp.get("rails") or sp.get("rails_off"):
+                continue
+            if any(a["req_k0"] < b["req_k1"] and b["req_k0"] < a["req_k1"] for a in convs[i].obs for b in convs[j].obs if a.get("req_k0") and b.get("req_k0")):
+                labels.append("request-without-rails-option-in-flight-together-with-a-name-list-request")
+                nt = True
+    return nt
+
+
+# ------------------------------------------------------------------------------------------------
 # leg "seq"
 
 
@@ -1206,7 +1379,35 @@ def _resolve_init(init, i, iso):
     return out
 
 
-def _conv_options(spec):
+RAIL_CATS = (("in", "input"), ("out", "output"), ("ret", "retrieval"))
+
+
+def _rails_lists(spec, cfg):
+    """options.rails with LISTS OF RAIL NAMES (the documented form of GenerationRailsOptions: "If a list of names is specified,
+    then only the specified ... rails will be applied"): spec key "rails" = {"in" | "out" | "ret": [indices of configured rails
+    of that category]} -> {"input" | "output" | "retrieval": [flow names]}; an empty list is a valid value too."""
+    out = {}
+    for cat, word in RAIL_CATS:
+        sel = (spec.get("rails") or {}).get(cat)
+        if sel is None or cfg is None:
+            continue
+        n = int(cfg.get("ret", 0)) if cat == "ret" else len(cfg.get(cat, []))
+        out[word] = [pipeline.rail_flow_name(cat, int(x), "ret" if cat == "ret" else cfg[cat][int(x)]) for x in sel if 0 <= int(x) < n]
+    return out
+
+
+def _rails_left_out(spec, cfg):
+    """Configured rails that the name lists of the request's options do NOT name: [(category, index)]."""
+    out = []
+    for cat, _ in RAIL_CATS:
+        sel = (spec.get("rails") or {}).get(cat)
+        if sel is not None:
+            n = int(cfg.get("ret", 0)) if cat == "ret" else len(cfg.get(cat, []))
+            out += [(cat, x) for x in range(n) if x not in [int(y) for y in sel]]
+    return out
+
+
+def _conv_options(spec, cfg=None):
     """Generation options of a conversation of the sequential leg, the same for all its turns; None = the calls are made
     without any `options` argument."""
     opts = {}
@@ -1221,6 +1422,9 @@ def _conv_options(spec):
         opts["log"] = {"activated_rails": True, "llm_calls": True, "colang_history": spec["log"] == "history"}
     if spec.get("rails_off"):
         opts["rails"] = {spec["rails_off"]: False}
+    lists = _rails_lists(spec, cfg)
+    if lists:
+        opts["rails"] = dict(opts.get("rails") or {}, **lists)
     return opts or None
 
 
@@ -1255,17 +1459,17 @@ def _seq_isolated(case, problems):
     iso = {}
     for i, spec in enumerate(case["convs"]):
         pipe = Pipe(cfg, case["llm"])
-        rec = {"replies": [], "keys": [], "texts": [], "obs": [], "init": None, "transcripts": [], "ptrace": pipe.ptrace}
+        rec = {"replies": [], "keys": [], "texts": [], "obs": [], "init": None, "transcripts": [], "ptrace": pipe.ptrace, "cuts": pipe.cuts}
         iso[i] = rec
         rec["init"] = _resolve_init(spec.get("init", []), i, iso)
-        conv = Conv(i, cfg, rec["init"], len(spec["users"]), _conv_options(spec), bool(spec.get("stream")), tables=_tables(case))
+        conv = Conv(i, cfg, rec["init"], len(spec["users"]), _conv_options(spec, cfg), bool(spec.get("stream")), tables=_tables(case))
         _drive(_seq_isolated_one(i, spec, pipe, conv, rec, iso, problems), api)
     return iso
 
 
 def _seq_isolated_one(i, spec, pipe, conv, rec, iso, problems):
     for t, tspec in enumerate(spec["users"]):
-        text = _resolve_text(tspec, i, t, iso)
+        text = _resolve_text(tspec, i, t, iso) + _pad(i, spec.get("pad"))
         rec["texts"].append(text)
         o = yield (pipe, conv, t, text)
         rec["obs"].append(o)
@@ -1332,7 +1536,7 @@ def run_seq(case, problems):
             labels.append(f"{cat}-rail={k}")
     iso = _seq_isolated(case, problems)
     shared = Pipe(cfg, case["llm"])
-    convs = [Conv(i, cfg, iso[i]["init"], len(s["users"]), _conv_options(s), bool(s.get("stream")), tables=_tables(case)) for i, s in enumerate(case["convs"])]
+    convs = [Conv(i, cfg, iso[i]["init"], len(s["users"]), _conv_options(s, cfg), bool(s.get("stream")), tables=_tables(case)) for i, s in enumerate(case["convs"])]
     if case.get("replies"):
         labels.append("llm-replies-from-case-table" + ("+intents" if case.get("intents") else ""))
     if case.get("shape"):
@@ -1353,7 +1557,7 @@ def run_seq(case, problems):
     if len({json.dumps(c.options, sort_keys=True) for c in convs}) > 1:
         labels.append("conversations-with-different-options")
         specs = case["convs"]
-        if any(a is not b and a["init"] == b["init"] and a["users"] == b["users"] and _conv_options(a) != _conv_options(b) for a in specs for b in specs):
+        if any(a is not b and a["init"] == b["init"] and a["users"] == b["users"] and _conv_options(a, cfg) != _conv_options(b, cfg) for a in specs for b in specs):
             labels.append("same-messages-different-options")
         if any(c.options is None for c in convs):
             labels.append("some-conversation-without-options")
@@ -1375,6 +1579,8 @@ def run_seq(case, problems):
     skip = unjudged | diverged | {FILLER + k for k in range(n_fill) if k not in fill_iso}
     _set_blocks_match(problems, _blocks_match(shared.ptrace, [iso[i]["ptrace"] for i in iso] + [f["ptrace"] for f in fill_iso.values()], skip=skip))
     nt = _ms_facts(cfg, convs, labels) or state["nt"]
+    nt = _maxlen_facts(cfg, shared, convs, {i: iso[i]["cuts"] for i in iso}, case["convs"], labels) or nt
+    _rails_list_facts(cfg, convs, case["convs"], labels)
     if unjudged:
         labels.append("some-conversation-not-judged")
     labels.append(f"switches={min(switches, 4)}{'+' if switches > 4 else ''}")
@@ -1486,7 +1692,7 @@ def _seq_shared(case, shared, convs, iso, sched, model, labels, problems, unjudg
 # leg "conc"
 
 
-def _task_options(ts):
+def _task_options(ts, cfg=None):
     opts = {}
     lp = {}
     if ts.get("temp") is not None:
@@ -1497,11 +1703,14 @@ def _task_options(ts):
         opts["llm_params"] = lp
     if ts.get("log"):
         opts["log"] = {"activated_rails": True, "llm_calls": True}
+    lists = _rails_lists(ts, cfg)
+    if lists:
+        opts["rails"] = lists
     return opts or None
 
 
 def _task_texts(i, ts):
-    return [f"t{i}u{t} {atom}" for t, atom in enumerate(ts["users"])]
+    return [f"t{i}u{t} {atom}" + _pad(i, ts.get("pad")) for t, atom in enumerate(ts["users"])]
 
 
 def _run_loop(coro_fn):
@@ -1524,7 +1733,7 @@ def _conc_isolated(case, problems):
     iso = []
     for i, ts in enumerate(case["tasks"]):
         pipe = Pipe(cfg, case["llm"])
-        conv = Conv(i, cfg, [], len(ts["users"]), _task_options(ts), bool(ts.get("stream")), ts.get("lat"))
+        conv = Conv(i, cfg, [], len(ts["users"]), _task_options(ts, cfg), bool(ts.get("stream")), ts.get("lat"))
         texts = _task_texts(i, ts)
 
         async def main(loop, pipe=pipe, conv=conv, texts=texts):
@@ -1541,7 +1750,7 @@ def _conc_isolated(case, problems):
         prob = _run_loop(main)
         if prob and not any(v.kind == _rest_kind(prob.none_added) for v in problems):
             problems.append(Violation(_rest_kind(prob.none_added), f"[conc/isolated] task {i} alone on a fresh instance (options {conv.options}), {prob}", pipe.rest_detail(prob, leg="conc", sequential=True, isolated=True)))
-        conv.ptrace = pipe.ptrace
+        conv.ptrace, conv.cuts = pipe.ptrace, pipe.cuts
         iso.append(conv)
     return iso
 
@@ -1555,7 +1764,7 @@ def run_conc(case, problems):
             labels.append(f"{cat}-rail={k}")
     iso = _conc_isolated(case, problems)
     shared = Pipe(cfg, case["llm"])
-    convs = [Conv(i, cfg, [], len(ts["users"]), _task_options(ts), bool(ts.get("stream")), ts.get("lat")) for i, ts in enumerate(tasks)]
+    convs = [Conv(i, cfg, [], len(ts["users"]), _task_options(ts, cfg), bool(ts.get("stream")), ts.get("lat")) for i, ts in enumerate(tasks)]
     state = {"active": 0, "idle_problems": [], "idle_checks": 0}
 
     def idle_check(when, loop):
@@ -1611,6 +1820,8 @@ def run_conc(case, problems):
             if a["e0"] < b["e1"] and b["e0"] < a["e1"] and any(c["exp"] and (c["exp"]["t_start"], c["exp"]["mt_start"]) != conf_pair for c in (a, b)):
                 racing.append((max(a["e0"], b["e0"]), a["task"], b["task"]))
     nt = _ms_facts(cfg, convs, labels) or crossing > 0
+    nt = _maxlen_facts(cfg, shared, convs, {i: c.cuts for i, c in enumerate(iso)}, tasks, labels) or nt
+    nt = _rails_list_facts(cfg, convs, tasks, labels) or nt
     labels.append("overlap=" + ("crossing" if crossing else "nested-only" if overlapping else "none"))
     vt_cross = any(a["task"] != b["task"] and a["got"]["vt0"] < b["got"]["vt0"] < a["got"]["vt1"] < b["got"]["vt1"] for a in calls for b in calls)
     if vt_cross:
@@ -1623,6 +1834,8 @@ def run_conc(case, problems):
         labels.append("llm_params-option")
     if case.get("pshape"):
         labels.append("params-shape=" + case["pshape"])
+    if case.get("oshape"):
+        labels.append("options-shape=" + case["oshape"])
     if any(ts.get("stream") for ts in tasks):
         labels.append("streaming")
     if any(ts.get("log") for ts in tasks):
@@ -1880,6 +2093,7 @@ def _run(case):
     problems = []
     _TICKS["n"] = 0
     _TRACES.clear()
+    _CUTS.clear()
     try:
         res = run_v2(case, problems) if case["leg"] == "v2" else run_seq(case, problems) if case["leg"] == "seq" else run_conc(case, problems)
     except BaseException as e:
@@ -2030,11 +2244,125 @@ def _st_ms(draw, cfg):
     return dict(cfg, ext=EXT_MS, ms={k: draw(st.sampled_from(v)) for k, v in MS_POLICIES.items()})
 
 
+# configurations with SEVERAL rails per category (option shape "rail name lists"); the first three are general mode without a
+# self-check rail (no call alters an LLM parameter: the sub-domain that stays judgeable while the llm_params race is listed open)
+RL_CFGS = [
+    {"v": 1, "in": ["check", "rewrite"], "out": [], "dialog": False, "exc": False, "ret": 0},
+    {"v": 1, "in": ["check", "check"], "out": ["check"], "dialog": False, "exc": False, "ret": 0},
+    {"v": 1, "in": ["rewrite", "check"], "out": ["check", "rewrite"], "dialog": False, "exc": False, "ret": 0},
+    {"v": 1, "in": ["check"], "out": ["check", "self"], "dialog": False, "exc": False, "ret": 0},
+    {"v": 1, "in": ["rewrite", "check"], "out": ["check", "check"], "dialog": True, "exc": False, "ret": 1},
+    {"v": 1, "in": ["self", "check"], "out": ["self"], "dialog": True, "exc": False, "ret": 2},
+    {"v": 1, "in": ["check", "rewrite", "check"], "out": ["rewrite"], "dialog": True, "exc": False, "ret": 0},
+]
+RL_QUIET = RL_CFGS[:3]
+
+
+def _n_rails(cfg, cat):
+    return int(cfg.get("ret", 0)) if cat == "ret" else len(cfg.get(cat, []))
+
+
+@st.composite
+def _st_rails_lists(draw, cfg):
+    """{"in" | "out" | "ret": [indices]} for the categories the configuration has rails in: a list per category (any sub-list of
+    the configured rails in configured order: all of them, some, one, none) or no entry for it (the default: True); at least one
+    category gets a list, and - three times in four - at least one list leaves out a configured rail."""
+    cats = [c for c, _ in RAIL_CATS if _n_rails(cfg, c)]
+    out = {}
+
+    def sub(c):
+        # all sub-lists of the configured rails (configured order), the proper non-empty ones first, then the empty and the full one
+        n = _n_rails(cfg, c)
+        subs = [[x for x in range(n) if m >> x & 1] for m in range(1, 2 ** n - 1)]
+        return draw(st.sampled_from(subs + subs + [[], list(range(n))]))
+
+    for c in cats:
+        if draw(st.sampled_from([True, True, False])):
+            out[c] = sub(c)
+    if not out:
+        c = draw(st.sampled_from(cats))
+        out[c] = sub(c)
+    if all(len(v) == _n_rails(cfg, c) for c, v in out.items()) and draw(st.sampled_from([True, True, True, False])):
+        c = draw(st.sampled_from(sorted(out)))
+        out[c] = out[c][:-1] if draw(st.booleans()) else out[c][1:]
+    return out
+
+
+@st.composite
+def _st_maxlen(draw, cfg):
+    """Configuration dimension "max_length": the shipped templates of one or more of the tasks the configuration renders from
+    the history, with a lowered limit (ML_LIMITS)."""
+    if cfg.get("dialog"):
+        tasks = sorted({draw(st.sampled_from(["generate_user_intent", "generate_user_intent", "generate_bot_message", "generate_next_steps"])) for _ in range(draw(st.sampled_from([1, 1, 2, 3])))})
+    else:
+        tasks = ["general"]
+    return dict(cfg, ext=cfg.get("ext") or EXT_ML, maxlen={t: draw(st.sampled_from(ML_LIMITS[t])) for t in tasks})
+
+
+@st.composite
+def _overflow_case(draw, llms=None):
+    """Shape "overflow in between" (a seventh of the sequential cases): a lowered max_length; conversation B of 2-4 turns of
+    short texts (it fits, or overflows late by itself), conversation A of 2-5 turns of LONG messages (padded texts) that
+    overflows; schedules "B's first turns, all of A, B goes on" (1/2), "all of A, then all of B" (1/4) or a drawn interleaving
+    (1/4); optionally a third ordinary conversation and per-conversation log options."""
+    cfg = draw(_st_maxlen(draw(_st_ms(draw(st.sampled_from(SEQ_CFGS))))))
+    mk = lambda i, lo, hi, pad: {"init": draw(_st_init(i)) if draw(st.sampled_from([True, False, False, False])) else [],  # noqa: E731
+                                 "users": draw(st.lists(st.lists(_st_part(i), min_size=1, max_size=2), min_size=lo, max_size=hi)),
+                                 "log": draw(st.sampled_from([False, False, False, True])), "stream": False, "temp": None, "mt": None, "pad": pad}
+    convs = [mk(0, 2, 4, 0), mk(1, 2, 5, draw(st.sampled_from([5, 7, 9, 12])))]
+    if draw(st.sampled_from([True, False, False])):
+        convs.append(mk(2, 1, 2, draw(st.sampled_from([0, 0, 7]))))
+    lens = [len(c["users"]) for c in convs]
+    schedule = draw(st.sampled_from(["bab", "bab", "ab", None]))
+    total = sum(lens)
+    order = draw(st.lists(st.integers(0, 2), min_size=total, max_size=total))
+    if schedule:
+        first = draw(st.integers(1, lens[0] - 1)) if schedule == "bab" else 0
+        sched = [0] * first + [1] * lens[1] + [0] * (lens[0] - first)
+        if len(convs) > 2:
+            at = draw(st.integers(0, len(sched)))
+            sched = sched[:at] + [2] * lens[2] + sched[at:]
+        order = _order_for(sched, lens)
+    return {"leg": "seq", "shape": "overflow-in-between", "config": cfg, "llm": draw(st.sampled_from(llms or LLMS)), "api": draw(st.sampled_from(["sync", "async", "onecoro", "onecoro"])),
+            "convs": convs, "order": list(order)}
+
+
+def _overflow_family(tier):
+    """Deterministic family "overflow in between": B1 B2 | A1..A4 | B3 (and: all of A, then all of B) under a lowered
+    max_length of the general prompt / of the dialog rails' prompts; A's messages are long, B's are short.  Quick 3 cases;
+    thorough: x limits x configurations x call modes x LLM variants."""
+    conv = lambda users, pad=0: {"init": [], "users": users, "log": False, "stream": False, "temp": None, "mt": None, "pad": pad}  # noqa: E731
+    general = [c for c in SEQ_CFGS if not c["dialog"]][0]
+    b_users = [["hi"], ["b"], ["tell me a joke"]]
+    a_users = [["hello there"], ["a"], ["c"], ["hi"]]
+    plans = [(general, {"general": 480}, "bab", "async", "field", 8), (SEQ_CFGS[0], {"generate_user_intent": 3000}, "bab", "onecoro", "kw0", 9),
+             (SEQ_CFGS[3], {"generate_bot_message": 3150, "generate_next_steps": 1200}, "ab", "sync", "field", 9)]
+    if tier != "quick":
+        plans = []
+        for x, cfg in enumerate([general] + [c for c in SEQ_CFGS if c["dialog"]][1:]):
+            for task in (["general"] if not cfg["dialog"] else ["generate_user_intent", "generate_bot_message", "generate_next_steps"]):
+                for y, lim in enumerate(ML_LIMITS[task]):
+                    plans.append((cfg, {task: lim}, ("bab", "ab")[(x + y) % 2], ("async", "onecoro", "sync")[(x + y) % 3], ("field", "kw0", "kw1")[y % 3], (7, 9, 12)[(x + y) % 3]))
+    for cfg, maxlen, schedule, api, llm, pad in plans:
+        sched = [0, 0, 1, 1, 1, 1, 0] if schedule == "bab" else [1, 1, 1, 1, 0, 0, 0]
+        yield {"leg": "seq", "shape": "overflow-in-between", "config": dict(cfg, ext=EXT_ML, maxlen=maxlen), "llm": llm, "api": api,
+               "convs": [conv(b_users), conv(a_users, pad)], "order": _order_for(sched, [3, 4])}
+
+
 @st.composite
 def _seq_case(draw, llms=None):
     cfg = draw(_st_ms(draw(st.sampled_from(SEQ_CFGS))))
     n = draw(st.sampled_from([2, 2, 3, 3, 4]))
     convs = []
+    # option shape "rail name lists" (an eighth of the cases): a configuration with several rails per category, one or two
+    # conversations pass options.rails.<category> as a LIST of rail names
+    with_lists = draw(st.sampled_from([True] + [False] * 7))
+    if with_lists:
+        cfg = draw(_st_ms(draw(st.sampled_from(RL_CFGS))))
+    # configuration dimension "max_length" (a fifth of the cases): lowered limits, some conversations of long messages
+    with_maxlen = draw(st.sampled_from([True, False, False, False, False]))
+    if with_maxlen:
+        cfg = draw(_st_maxlen(cfg))
     for i in range(n):
         convs.append(
             {
@@ -2046,6 +2374,14 @@ def _seq_case(draw, llms=None):
                 "mt": draw(st.sampled_from([None, None, None, None, 16])),
             }
         )
+    if with_maxlen:
+        for i, c in enumerate(convs):
+            c["pad"] = draw(st.sampled_from([0, 0, 6, 9]))
+            if c["pad"]:  # a long conversation: up to five turns
+                c["users"] += draw(st.lists(st.lists(_st_part(i), min_size=1, max_size=2), min_size=0, max_size=2))
+    if with_lists:
+        for i in sorted(set(draw(st.lists(st.integers(0, n - 1), min_size=1, max_size=2)))):
+            convs[i]["rails"] = draw(_st_rails_lists(cfg))
     for i, c in enumerate(convs):
         # a supplied history that differs from another conversation's transcript only in where a ':' is a message boundary:
         # mostly under that conversation's options too (the options are part of what the instance is given)
@@ -2234,7 +2570,73 @@ def _conc_case(draw, llms=None, quiet=False):
         tasks[a].update({first: draw(st.sampled_from([None] + vals[first])), later: None, "start": 0, "lat": [draw(st.sampled_from([0.2, 0.3, 0.5, 1.0]))] + tasks[a]["lat"][1:]})
         tasks[b].update({first: None, later: draw(st.sampled_from(vals[later])), "start": draw(st.sampled_from([0.01, 0.05, 0.1, 0.15]))})
         case["pshape"] = "disjoint"
+    elif draw(st.sampled_from([True, False, False, False])):
+        # option shape "rail name lists in flight" (a quarter of the cases): a configuration with several rails per category; request A
+        # passes options.rails.<category> as LISTS of rail names and its first LLM call is slow; request B - no rails option
+        # (no options at all, or log / llm_params only) - starts while A is in flight; the other tasks as drawn
+        cfg = case["config"] = draw(_st_ms(draw(st.sampled_from(RL_QUIET if quiet else RL_CFGS))))
+        a, b = (0, 1) if draw(st.sampled_from([True, True, False])) else (1, 0)
+        tasks[a].update({"rails": draw(_st_rails_lists(cfg)), "start": 0, "lat": [draw(st.sampled_from([0.3, 0.5, 1.0]))] + tasks[a]["lat"][1:]})
+        tasks[b].update({"start": draw(st.sampled_from([0.01, 0.05, 0.1, 0.15, 0.2]))})
+        for x in range(2, n):
+            if draw(st.sampled_from([True, False, False, False])):
+                tasks[x]["rails"] = draw(_st_rails_lists(cfg))
+        case["oshape"] = "rail-name-lists"
+    elif draw(st.sampled_from([True, False, False, False])):
+        # configuration dimension "max_length" (about a sixth of the cases): lowered limits, some tasks with long messages and up to
+        # three turns
+        case["config"] = draw(_st_maxlen(cfg))
+        for x, ts in enumerate(tasks):
+            ts["pad"] = draw(st.sampled_from([0, 6, 9, 12]))
+            if ts["pad"]:
+                ts["users"] = ts["users"] + draw(st.lists(st.sampled_from(CONC_ATOMS), min_size=0, max_size=2))[: 3 - len(ts["users"])]
     return case
+
+
+def _rails_list_family(tier):
+    """Deterministic family "rail name lists in flight": request A (options.rails.input / output / retrieval = lists of rail names that
+    leave out a configured rail, slow LLM call) is in flight when request B (no options at all) arrives with a text that a rail
+    A's lists leave out rewrites or refuses (worked out from the fakes' digest verdicts); a third request arrives on the idle
+    instance afterwards.  Quick: 3 cases in general mode (no call alters an LLM parameter); thorough: + dialog-rails
+    configurations with self-check and retrieval rails, B with a log request."""
+    def verdicts(cfg, text):
+        # what the configured input rails do to `text`, in order (a pure function of the text: DigestSession.rail_verdict)
+        out = []
+        for idx, kind in enumerate(cfg["in"]):
+            d = _dg(f"in{idx}|{text}")
+            v = ("rewrite" if d % 2 == 0 else "accept") if kind == "rewrite" else ("reject" if d % 5 == 0 else "accept")
+            out.append(v)
+            if v == "reject":
+                break
+            if v == "rewrite":
+                text = f"RW{_dg(text) % 0xFFFFFF:06x} rewritten"
+        return out
+
+    def atom(cfg, i, idx):
+        # user text of task i that every input rail before `idx` accepts and rail `idx` rewrites / refuses
+        for a in CONC_ATOMS:
+            v = verdicts(cfg, f"t{i}u0 {a}")
+            if len(v) > idx and all(x == "accept" for x in v[:idx]) and v[idx] != "accept":
+                return a
+        return None
+
+    def passing(cfg, i):
+        # user text of task i that no input rail refuses (the request then reaches its - slow - LLM call)
+        return next((a for a in CONC_ATOMS if "reject" not in verdicts(cfg, f"t{i}u0 {a}")), "hi")
+
+    plans = [(RL_CFGS[0], {"in": [0]}, 1, "field", False), (RL_CFGS[1], {"in": [1], "out": []}, 0, "kw0", False), (RL_CFGS[2], {"in": [], "out": [0]}, 0, "field", False)]
+    if tier != "quick":
+        plans += [(RL_CFGS[0], {"in": []}, 1, "kw1", True), (RL_CFGS[2], {"in": [1]}, 0, "kw0", True), (RL_CFGS[3], {"out": [0]}, None, "field", True),
+                  (RL_CFGS[4], {"in": [0], "ret": []}, 1, "field", True), (RL_CFGS[5], {"in": [1], "out": [], "ret": [1]}, 0, "field", True), (RL_CFGS[6], {"in": [0, 2], "out": []}, 1, "kw0", True)]
+    for cfg, lists, idx, llm, log in plans:
+        b = passing(cfg, 1) if idx is None else atom(cfg, 1, idx)  # (None: B passes the input rails, an output rail is left out)
+        if b is None:
+            continue
+        for lat_a, start_b in ((0.5, 0.05), (1.0, 0.2)) if tier != "quick" else ((0.5, 0.05),):
+            yield {"leg": "conc", "config": cfg, "llm": llm, "oshape": "rail-name-lists", "tasks": [
+                {"start": 0, "users": [passing(cfg, 0)], "temp": None, "mt": None, "log": False, "stream": False, "lat": [lat_a], "rails": lists},
+                {"start": start_b, "users": [b], "temp": None, "mt": None, "log": log, "stream": False, "lat": [0.01]},
+                {"start": 10.0, "users": [(atom(cfg, 2, idx) if idx is not None else None) or "a"], "temp": None, "mt": None, "log": False, "stream": False, "lat": [0]}]}
 
 
 V2_CFG = {"v": 2, "in": [], "out": [], "dialog": "llmc", "exc": False}
@@ -2451,6 +2853,8 @@ def enumerate_cases(tier):
     yield from _ms_family(tier)
     yield from _ms_inline_family(tier)
     yield from _shift_family(tier)
+    yield from _overflow_family(tier)
+    yield from _rails_list_family(tier)
     yield from _between_family(tier)
     yield from _disjoint_family(tier)
     shared = _v2_shared_names()
@@ -2476,7 +2880,7 @@ def strategy(tier):
     shared = _v2_shared_names()
     v2 = _v2_case(False) if not shared else st.one_of(_v2_case(False), _v2_case(False), _v2_case(True)) if shared != "fixed" else st.one_of(_v2_case(False), _v2_case(True), _v2_case(True))
     # Colang 2.x turns are an order of magnitude slower than Colang 1.0 ones: one case in nine
-    seq = st.one_of(*([_seq_case(llms)] * 5 + [_shift_case(llms)]))
+    seq = st.one_of(*([_seq_case(llms)] * 5 + [_shift_case(llms)] + [_overflow_case(llms)]))
     return st.one_of(*([seq] * len(conc) + conc + [v2]))
 
 
